@@ -118,6 +118,12 @@ CHECKS["C10"] = ("exploration",
     "Words matching a pattern but unused are unconstrained (the property leaves them open).",
     "DESIGN.md 4 (C10)")
 
+CHECKS["C20"] = ("exploration",
+    "Homomorphism (metamorphic) oracle over a finite product domain day forms x clock templates x orders x connectors x hours x minutes: parse(day+clock) = date of parse(day) + time of parse(clock); quick = Hypothesis sample of the domain, thorough = complete enumeration; two levels (max_stack_depth 0 and default)",
+    "Every text of the finite specification domain is decided against the composition of its two parts, at depth 0 (productions, patterns, coverage filter, ranking) and at the default depth (adds beam pruning). The thorough tier enumerates the domain completely; failures under the default beam are known findings listed by exact template keys generated from that enumeration, anything else is a violation.",
+    "Known findings C20-L10-* (beam pruning) and C20-L0-October_5 (bilingual re-bracketing) are matched by day form, level and template key.",
+    "DESIGN.md 4 (C20)")
+
 NOT_YET = "check not built yet in this round (see DESIGN.md section 4 for the planned generated-input check)"
 
 
